@@ -316,7 +316,10 @@ func (h *c01Hist) step() bool {
 	if T.Intn(30, "syntax-error-record") == 0 {
 		// a reader's positioned error passed along by a filter: not part of the stream, writes nothing
 		if err := h.w.Write(&SyntaxError{FileName: "f", Line: 1 + T.Intn(9, "errline"), Msg: "missing iteration count"}); err != nil {
-			h.r.Fail("roundtrip", "api/syntax-error-record-rejected", "Writer.Write(*SyntaxError) = %v", err)
+			// whether the writer skips it or notes it down in a way readers ignore is its business; if it wrote and
+			// the sink failed, that is a write error like any other
+			h.r.Logf("write error on a syntax error record: %v", err)
+			return false
 		}
 		h.r.Hit("syntax error record handed to the writer")
 	}
